@@ -194,6 +194,9 @@ func c23Gen(rt *rapid.T, r *evid.Rec) *hist.Case {
 				a.ReqResp = &v
 			}
 		}
+		if a.Kind == "publish" && rapid.IntRange(0, 2).Draw(rt, "padded") == 0 {
+			a.Pad = pick(rt, "pad", []int{30, 100, 250}) // so that a (re)sent message can exceed a later connection's smaller packet size limit
+		}
 		if a.Kind == "connect" && rapid.IntRange(0, 3).Draw(rt, "noack") == 0 {
 			a.AutoAck = false
 		}
